@@ -91,6 +91,30 @@ pub fn run(ctx: &Ctx) -> i32 {
     let a3 = ["/", ".", "€", "😀"];
     let l3 = ctx.tier.pick(8, 10);
     sweep(ctx, &a3, l3, &evals, &nontrivial);
+    // long inputs (beyond every length a sweep can reach): component and byte counts around 2^8, 2^12 and 2^16,
+    // each with a cancelling '..', a '.', a doubled and a trailing separator somewhere behind the long part
+    {
+        let mut long: Vec<String> = vec![];
+        for n in [255usize, 256, 257, 4095, 4096, 4097, 65535, 65536, 65537, 70000] {
+            let name = "x".repeat(n);
+            long.push(format!("{}/y/..", name));
+            long.push(format!("/{}/./y//z/../", name));
+            long.push(format!("{}c/..", "ab/".repeat(n / 3)));
+            long.push(format!("/{}../..", "a/".repeat(n / 2)));
+            long.push(format!("{}a", "../".repeat(n / 3)));
+            long.push(format!("{}/..", "é".repeat(n / 2)));
+        }
+        for s in &long {
+            evals.fetch_add(1, Ordering::Relaxed);
+            nontrivial.fetch_add(1, Ordering::Relaxed);
+            if let Some((sig, detail)) = check_one(s) {
+                // the witness is kept short: the shape of the input, not 70000 bytes of it
+                let shown = if s.len() > 120 { format!("{}...<{} bytes>...{}", &s[..s.char_indices().nth(20).map(|x| x.0).unwrap_or(20)], s.len(), &s[s.len() - 12..]) } else { s.clone() };
+                let s2 = s.clone();
+                vio(&format!("{} long-input", sig.split(" shape=").next().unwrap_or("clean")), || format!("{} [input {}]", detail.chars().take(300).collect::<String>(), shown), move || J::obj([("input", J::s(s2))]));
+            }
+        }
+    }
     // labelled sampling supplement: longer random strings over the wide alphabet (never decides alone)
     let mut rng = Rng(ctx.seed ^ 0xC14);
     let wide = ["/", ".", "a", "b", "é", " ", "~", "..", "//", "€"];
